@@ -311,6 +311,24 @@ func (matrix *DenseReal32Matrix) AsVector() Vector {
 func (matrix *DenseReal32Matrix) storageLocation() uintptr {
   return uintptr(unsafe.Pointer(&matrix.values[0]))
 }
+// True if a is a matrix of the same type that is backed by the same storage.
+func (matrix *DenseReal32Matrix) sharesStorage(a ConstMatrix) bool {
+  b, ok := a.(*DenseReal32Matrix)
+  return ok && matrix.storageLocation() == b.storageLocation()
+}
+// True if a is a view on exactly the same elements as matrix, i.e. the same
+// storage seen through the same window.
+func (matrix *DenseReal32Matrix) sameView(a ConstMatrix) bool {
+  b, ok := a.(*DenseReal32Matrix)
+  if !ok {
+    return false
+  }
+  return matrix.storageLocation() == b.storageLocation() &&
+         matrix.rows == b.rows && matrix.cols == b.cols &&
+         matrix.rowOffset == b.rowOffset && matrix.colOffset == b.colOffset &&
+         matrix.rowMax == b.rowMax && matrix.colMax == b.colMax &&
+         matrix.transposed == b.transposed
+}
 /* const interface
  * -------------------------------------------------------------------------- */
 func (matrix *DenseReal32Matrix) CloneConstMatrix() ConstMatrix {
